@@ -45,33 +45,80 @@ theorem coerce_some {S : SchemaView} {pre c post : Name} (h : coerce S pre (some
   obtain ⟨_, _, _, _, _, _, _, _, h⟩ := h
   exact h.symm
 
-theorem recursiveOf_nonrec {S : SchemaView} {ty : Name} {ed : EdgeInfo} {kind : Kind}
-    {r : Option Recursive} (h : recursiveOf S ty ed kind = .ok r) (hk : kindIn 1 kind = true) :
-    EdgeKindOK kind ⟨0, 0, 0, "", [], isOptionalKind kind, r⟩ := by
+theorem paramsAgreeRecB_sound (H : HypEnv) (W : World) (hD : W.D = H.D) (ha : W.args = H.args)
+    (he : W.edges = H.edges) (n : Name) (params ps : Params)
+    (h : paramsAgreeRecB H n params ps = true) : ParamsAgreeRec W n params ps := by
+  have hs : W.senv = H.senv := by
+    simp [World.senv, HypEnv.senv, hD, ha, he]
+  intro x hx y
+  rw [hs, hD] at *
+  have hxa : ∃ a ∈ H.D.adj, a.vertex = x := by
+    apply Classical.byContradiction
+    intro hno
+    exact hx (nbrs_nil_of_no_entry _ _ _ _ fun a ha he => hno ⟨a, ha, he⟩)
+  obtain ⟨a, hmem, rfl⟩ := hxa
+  simp only [paramsAgreeRecB, List.all_eq_true, Bool.or_eq_true] at h
+  rcases h a hmem with h1 | h1
+  · exact absurd (by simpa using h1) hx
+  · by_cases hy : ∃ b ∈ H.D.adj, b.vertex = y
+    · obtain ⟨b, hb, rfl⟩ := hy
+      simpa using h1 b hb
+    · have hno : ∀ b ∈ H.D.adj, b.vertex ≠ y := fun b hb he => hy ⟨b, hb, he⟩
+      rw [nbrs_nil_of_no_entry _ _ _ _ hno, nbrs_nil_of_no_entry _ _ _ _ hno]
+
+theorem recConvB_sound (D : Data) (e : IREdge) (r : Recursive)
+    (h : recConvB D e.name e.params r.coerceTo = true) : RecConv D e r := by
+  intro w hw
+  by_cases hx : ∃ a ∈ D.adj, a.vertex = w
+  · obtain ⟨a, hmem, rfl⟩ := hx
+    simp only [recConvB, List.all_eq_true, Bool.or_eq_true] at h
+    rcases h a hmem with h1 | h1
+    · rw [hw] at h1; cases h1
+    · simpa using h1
+  · exact nbrs_nil_of_no_entry _ _ _ _ fun a ha he => hx ⟨a, ha, he⟩
+
+theorem edgeKindOK_of_hyps (S : SchemaView) (H : HypEnv) (hS : H.S = S) (W : World)
+    (hD : W.D = H.D) (ha : W.args = H.args) (he : W.edges = H.edges)
+    {ty : Name} {ed : EdgeInfo} {kind : Kind} {frag : Nat} (hfr : frag ≤ 2)
+    {r : Option Recursive} (h : recursiveOf S ty ed kind = .ok r) (hk : kindIn frag kind = true)
+    (eid fromVid toVid : Nat) (n : Name) (params ps : Params)
+    (hrec : recOK H ty ed n params ps kind = true) :
+    EdgeKindOK W n params kind ⟨eid, fromVid, toVid, n, ps, isOptionalKind kind, r⟩ := by
   cases kind with
   | plain => simp [recursiveOf] at h; simp [EdgeKindOK, isOptionalKind, h]
   | optional => simp [recursiveOf] at h; simp [EdgeKindOK, isOptionalKind, h]
-  | recurse d => simp [kindIn] at hk
-  | fold fds => simp [kindIn] at hk
+  | recurse d =>
+    have h' := h
+    simp only [recursiveOf, bind_ok, pure_ok, check_ok] at h'
+    obtain ⟨_, hd, c, _, hr⟩ := h'
+    subst hr
+    simp only [recOK, hS, h, Bool.and_eq_true] at hrec
+    refine ⟨⟨d, c⟩, rfl, rfl, ?_, ?_, ?_⟩
+    · have : d ≠ 0 := by simpa using hd
+      omega
+    · rw [hD]; exact recConvB_sound H.D _ _ hrec.1
+    · exact paramsAgreeRecB_sound H W hD ha he n params ps hrec.2
+  | fold fds => simp [kindIn] at hk; omega
 
 theorem cert_fill (S : SchemaView) (H : HypEnv) (hS : H.S = S) (W : World)
     (hD : W.D = H.D) (ha : W.args = H.args) (he : W.edges = H.edges)
-    (T : List TagEntry) (A : List Vid) (tbl : List (Vid × List QField)) (G : Glob W T A tbl) :
+    (T : List TagEntry) (A : List Vid) (tbl : List (Vid × List QField)) (G : Glob W T A tbl)
+    (frag : Nat) (hfr : frag ≤ 2) :
     (∀ path vid pre node st acc st', fillNode S path vid pre node st = .ok (acc, st') →
-      ∀ L Rest, hypsNode H 1 pre node = true → A = L ++ acc.verts.map (·.vid) ++ Rest →
+      ∀ L Rest, hypsNode H frag pre node = true → A = L ++ acc.verts.map (·.vid) ++ Rest →
         (∀ p ∈ tblNode node vid st.nextVid, p ∈ tbl) → HV W T path acc.verts →
         NodeCert W node vid L acc.edges (acc.verts.map (·.vid))) ∧
     (∀ path vid ty fields st acc st', fillFields S path vid ty fields st = .ok (acc, st') →
-      ∀ L Rest, hypsFields H 1 ty fields = true → vid ∈ L → A = L ++ acc.verts.map (·.vid) ++ Rest →
+      ∀ L Rest, hypsFields H frag ty fields = true → vid ∈ L → A = L ++ acc.verts.map (·.vid) ++ Rest →
         (∀ p ∈ tblFields fields st.nextVid, p ∈ tbl) → HV W T path acc.verts →
         FieldsCert W fields vid L acc.edges (acc.verts.map (·.vid))) := by
   apply fill_induct S
     (P1 := fun path vid pre node st acc _ =>
-      ∀ L Rest, hypsNode H 1 pre node = true → A = L ++ acc.verts.map (·.vid) ++ Rest →
+      ∀ L Rest, hypsNode H frag pre node = true → A = L ++ acc.verts.map (·.vid) ++ Rest →
         (∀ p ∈ tblNode node vid st.nextVid, p ∈ tbl) → HV W T path acc.verts →
         NodeCert W node vid L acc.edges (acc.verts.map (·.vid)))
     (P2 := fun path vid ty fields st acc _ =>
-      ∀ L Rest, hypsFields H 1 ty fields = true → vid ∈ L → A = L ++ acc.verts.map (·.vid) ++ Rest →
+      ∀ L Rest, hypsFields H frag ty fields = true → vid ∈ L → A = L ++ acc.verts.map (·.vid) ++ Rest →
         (∀ p ∈ tblFields fields st.nextVid, p ∈ tbl) → HV W T path acc.verts →
         FieldsCert W fields vid L acc.edges (acc.verts.map (·.vid)))
   · -- node
@@ -113,12 +160,13 @@ theorem cert_fill (S : SchemaView) (H : HypEnv) (hS : H.S = S) (W : World)
   · -- fold: outside the fragment
     intro path vid ty n params fds child rest st ed ps accIn st2 comp evs st3 post evPost st4 st5
       accR st' h1 h2 _ _ _ _ _ _ _ L Rest hh
-    simp [hypsFields, hS, h1, h2, kindIn] at hh
+    simp only [hypsFields, hS, h1, h2, kindIn, Bool.and_eq_true, decide_eq_true_eq] at hh
+    omega
   · -- plain / optional edge
     intro path vid ty n params kind child rest st ed ps r accC st2 accR st' hk h1 h2 h3 h4 h5 ihC ihR
       L Rest hh hvid hA htbl hv
     simp only [hypsFields, hS, h1, h2, Bool.and_eq_true] at hh
-    obtain ⟨⟨⟨hkind, hpar⟩, hchild⟩, hrest⟩ := hh
+    obtain ⟨⟨⟨⟨hkind, hpar⟩, hrecok⟩, hchild⟩, hrest⟩ := hh
     have hs := (size_fill S).1 _ _ _ _ _ _ _ h4
     have b1 : st.bump.nextVid = st.nextVid + 1 := rfl
     rw [b1] at hs
@@ -139,7 +187,6 @@ theorem cert_fill (S : SchemaView) (H : HypEnv) (hS : H.S = S) (W : World)
       accC.verts.map (·.vid), accR.verts.map (·.vid), by simp, by simp, rfl, ?_, rfl, ?_,
       paramsAgreeB_sound H W hD ha he n params ps hpar, hC, hR⟩
     · exact G.verts vid (by rw [hA]; exact List.mem_append_left _ (List.mem_append_left _ hvid))
-    · have := recursiveOf_nonrec h3 hkind
-      cases kind <;> simp_all [EdgeKindOK]
+    · exact edgeKindOK_of_hyps S H hS W hD ha he hfr h3 hkind _ _ _ n params ps hrecok
 
 end TF.InterpSpec
